@@ -7,11 +7,13 @@ import tempfile
 import common as C
 
 PID = "C18"
-DRIVER = [("C18", "TfPwaV.Model.Data", "Data.handle"), ("C18b", "TfPwaV.Model.DataX", "DataX.handle")]
-LEAN_TARGETS = ["TfPwaV.Props.C18", "TfPwaV.Props.C18b"]
-PROP_MODULES = ["TfPwaV.Props.C18", "TfPwaV.Props.C18b"]
+DRIVER = [("C18", "TfPwaV.Model.Data", "Data.handle"), ("C18b", "TfPwaV.Model.DataX", "DataX.handle"),
+          ("C18c", "TfPwaV.Model.DataY", "DataY.handle")]
+LEAN_TARGETS = ["TfPwaV.Props.C18", "TfPwaV.Props.C18b", "TfPwaV.Props.C18c"]
+PROP_MODULES = ["TfPwaV.Props.C18", "TfPwaV.Props.C18b", "TfPwaV.Props.C18c"]
 ALL_MODULES = ["TfPwaV.Model.Data", "TfPwaV.Proofs.Data", "TfPwaV.Props.C18",
-               "TfPwaV.Model.DataX", "TfPwaV.Proofs.DataX", "TfPwaV.Props.C18b"]
+               "TfPwaV.Model.DataX", "TfPwaV.Proofs.DataX", "TfPwaV.Props.C18b",
+               "TfPwaV.Model.DataY", "TfPwaV.Proofs.DataY", "TfPwaV.Props.C18c"]
 ASSUMPTIONS = [
     "leaves are arrays with >= 1 axis whose leading axis is the event axis (axis=0 of data_split/data_merge); 0-d leaves raise in _data_split and are outside the model",
     "a leaf is modelled by the list of its rows; inner shape and dtype are carried by numpy/tf slicing and concat unchanged (validated by the numpy oracle, not modelled)",
@@ -30,6 +32,12 @@ ASSUMPTIONS = [
     "C18b: LazyFile is modelled as the LazyCall of the identity with eval() = x (its tf.data.Dataset.from_generator pipeline is built but not consumed by plain iteration; mmap_mode is numpy's); dict-only x (tf output signatures do not accept lists)",
     "C18b: SimpleData methods get_dat_order / savetxt / load_p4 / load_weight_file / load_extra_var are run on a SimpleData object created without the amplitude machinery (object.__new__ + the attributes they read); the full ConfigLoader path (load_data, get_n_data, lazy_call) is exercised by the search on a 3-body decay",
     "C18b: check_nan correspondence encodes NaN as the integer 99999; save_data / load_data / save_dataz (numpy pickling) are validated as identity incl. key order, not modelled",
+    "C18c (model TfPwaV.DataY): a particle is modelled by its name (BaseParticle equality is (name, _id), config particles have _id 0; str() is taken to be injective on the particles of one decay); get_particle(name) of a name that is not a final particle gives a particle outside decay_struct.outs (assign = len(outs))",
+    "C18c: the SimpleData / MultiData methods get_dat_order (standard False / True), load_p4, cal_angle(list), load_extra_var, load_data, get_weight_sign, MultiData.get_data, get_n_data, get_data_index('p' / 'mass') are run on objects built without the amplitude machinery: object.__new__ + the attributes they read, or the real __init__ with create_preprocessor replaced by a stub (so re_map is built by the library); decay_struct is a stub with outs / get_chains_map / topology_structure; the preprocessor is the stub {'particle': {name: {'p': p4}}, 'n_extra': ...} (the parameter `pre` of the model); weight_smear, lazy_call / lazy_file modes, cached_data, process_scale (weight_scale), get_data_index('angle' / 'aligned_angle') are not modelled",
+    "C18c: the items (s, l) of get_chains_map() are a parameter of the model (name pairs in iteration order); DecayGroup.get_chains_map / topology_map themselves are not modelled here",
+    "C18c: data_cut expressions: grammar & | ~, < <= > >=, + - *, unary minus, integer literals, names; every variable addresses a 1-d array of integer-valued float64; sympy.sympify / lambdify are parameters (validated on every generated expression); expressions in which sympify eliminates a variable or folds to a constant are skipped and counted (the real data_cut raises NameError there: free_symbols are taken from the simplified expression, lambdify gets the string); Eq/Ne, ^, /, ** are not in the grammar; variable arrays of different sizes (TF broadcasting) are outside the model",
+    "C18c: LazyCall objects with identities: x and the attached values are opaque identities, the heap holds the extra dicts; batch_size / cached_batch / cached_file / name / prefetch are not in the heap model; LazyCall.merge (fresh x and extra) is not an operation of the heap model",
+    "C18c: data_merge of arbitrary LazyCalls (op lmerge): eval() of the merged object and data_merge of the eager values are both computed by the model and compared with the code; their equality (lazy_merge_eq_eager_merge) is NOT proved: it is tested by the search under the hypothesis that an attached key which is also an output key of f is attached to all operands or to none (outside it the two sides do differ: counted as lazy_merge_excluded_differs, not a C18 violation: the operands are then not pieces of one sample); tf.concat of an array with an empty Python list is outside the model",
     "the theorems named without suffix F describe the generator before fix 15c726c (kept: they state exactly what the MAX_ITER branch lost); the suffix-F theorems describe the code now in /repo; the harness observes the variant and compares with the matching model",
 ]
 
@@ -525,6 +533,8 @@ def correspond(ctx, res):
         ctx.hints = dis[:20]
     import c18_x
     c18_x.correspond(ctx, res)      # round 2: the rest of data.py + dat_order / side-file plumbing (model TfPwaV.DataX)
+    import c18_y
+    c18_y.correspond(ctx, res)      # round 4: config_loader/data.py plumbing, data_cut expressions, LazyCall identities (model TfPwaV.DataY)
 
 
 def canon_ans(s):
@@ -822,6 +832,8 @@ def search(ctx, res):
     res.coverage["search"] = stats
     import c18_x
     c18_x.search(ctx, res)
+    import c18_y
+    c18_y.search(ctx, res)
 
 
 def search_files(ctx, res, rnd, D, tmp, stats, hard, mult):
@@ -1185,6 +1197,9 @@ def replay(ctx, payload):
     if op == "lazy_heavy_cache":
         import c18_z
         return c18_z.replay(r)
+    if op == "y_search":
+        import c18_y
+        return c18_y.replay(ctx, payload)
     if op == "split_merge":
         t = unpack(r["tree"])
         b = r["b"]
@@ -1248,7 +1263,7 @@ def replay(ctx, payload):
 
 
 MANIFEST = {
-    "text": "Lean theorems over ALL nested dict/list/tuple data trees (structural induction, arbitrary depth and row type), all batch sizes b>0 and all event counts: the batches of data_split are exactly the row windows [j*b,(j+1)*b) of every leaf and their number is the minimum over the tree of ceil(n/b) (leaf), MAX_ITER (empty dict/list), 0 (empty tuple) (split_eq, split_count, split_sizes); data_merge of the batches is the data cut after (number of batches)*b rows (merge_split_general), hence equals the data when no empty container limits the iteration or ceil(n/b) <= MAX_ITER (merge_split) and provably loses rows otherwise (merge_split_truncated, split_empty_tuple); batch_call f = f(whole sample) for every f commuting with row windows, and the scalar broadcast rule (batch_call_eq, batch_call_scalar); data_mask keeps exactly the selected rows of every leaf in order (mask_leaf); load_dat_file(savetxt(p)) = p for every particle count / event count / number of files holding disjoint particle groups (load_multi_file, load_save_roundtrip); merged LazyCall batches = eval() (lazy_eq_eager); data_index hit/fallback/path rules. For the code after the fix (15c726c, now in /repo) every statement is proved with NO guard on empty containers, empty extra or the number of batches: splitF_batches, splitF_get, merge_splitF, batch_call_eqF, batch_call_scalarF, lazyIterF_batches, lazy_eq_eagerF (plain LazyCall, _split_extra) and lazy_nested_eq_eagerF (LazyCall of a LazyCall). Round 2 (Props/C18b over the model Model/DataX, same quantifiers): a mask and its complement partition the events of every array -- re-interleaving gives the array back, sizes add up (mask_partition), data_merge(data_mask(d,sel), data_mask(d,~sel)) is d with the same row permutation in every array (cut_then_merge), data_cut keeps exactly the events whose addressed entry satisfies the predicate (cut_rows); data_replace sets one key and keeps every other value and the key order (replace_keeps_others, replace_non_dict); data_strip removes the keys at every depth, is idempotent, is the identity on trees without them and keeps the other arrays in order (strip_idempotent, strip_unchanged); data_map functor laws, hence data_to_numpy / data_to_tensor keep structure and values (data_map_id, data_map_comp, data_map_leaves); data_shape = leading size of the first array, all_list in data_map order (data_shape_first, data_shape_uniform); flatten_dict_data holds every array exactly once in order when no joined key collides (flatten_lossless) and provably loses one otherwise (flatten_collision_loses); batch_sum(f) = f(whole sample) for every f additive over row prefixes, no algebraic law on + needed (batch_sum_eq_sum, batch_sum_no_batch); data_index(d, p+q) = data_index(data_index(d,p), q) (index_append); check_nan keeps the structure and flags exactly the arrays with a NaN (check_nan_shape); LazyCall object: L[k]=v; L[k'] (lazy_getitem_set), copy / as_dataset keep x and items (lazy_copy_getitem), L[k] is the value found under k in L.eval() and overrides a same-named output (lazy_getitem_eq), data_replace(L,k,v).eval() differs from L.eval() exactly at k (lazy_replace_eval), data_merge of LazyCalls holding pieces of one sample concatenates x and every attached item in the same piece order (lazy_merge_pieces), LazyCall(g, LazyFile(x)): merged batches = eval() (lazy_file_eq_eager), EvalLazy (eval_lazy_eq); file conventions: SimpleData.savetxt + load_p4 under the same dat_order return every particle its own momenta for EVERY duplicate-free order list, i.e. every permutation and sub-list of the final particles (dat_order_roundtrip, dat_order_independent), particle-major files with order=(0,1,2), split=[N] (load_order012); side files: entry i of the concatenated weight/charge files belongs to event i and masks, batches and merges act on (event, weight) pairs (weights_follow_rows, weights_default). Both models are tied to tf_pwa.data / config_loader.data by exact comparison on random trees, real files, LazyCall objects and SimpleData objects on every run; numpy / path oracles test the statements directly on the implementation, incl. the real ConfigLoader with weight and charge side files in eager and lazy_call mode.",
-    "note": "Models = TfPwaV.Data and TfPwaV.DataX (hand-written; generators = lists of yielded values with the MAX_ITER branch and zip truncation mirrored; fixed variant 'finite list | repeat' selected by observing the tree). Validated, not proved: numpy/tf slicing, concat and boolean_mask act row-wise and keep inner shape/dtype; np.savetxt/loadtxt/save/load exactness; save_data/load_data/save_dataz pickling incl. key order; tf.data (HeavyCall) batching; LazyFile's from_generator pipeline; LazyCall.merge followed by eval / iteration for arbitrary (non-piece) operands and key intersection of the extras (correspondence + search); object aliasing of LazyCall.copy / data_replace (search); sympy parsing of data_cut expressions; the full ConfigLoader path (load_data with cal_angle, get_n_data, get_data_index, MultiData kwargs plumbing, lazy_call mode: search on a 3-body decay, every dat_order in the thorough tier); SimpleData.get_dat_order(standard=True) and data_root_lhcb formats are not covered. Observed, not a C18 violation: flatten_dict_data silently overwrites on colliding joined keys and drops empty containers; load_extra_var does not check that a side file has at least n_data entries. Finding of this check, repaired in /repo (15c726c, kind 'fixed' in known_findings.jsonl; the unrepaired variant stays in the model as refutation theorems and is reported under its own key if the fix is reverted): an empty dict/list stopped the iteration after 1000 batches, an empty tuple made data_split yield nothing, LazyCall with empty extra stopped after 1000 batches.",
-    "technique": "Lean 4 proof by structural induction over nested data trees (unbounded sizes) + exact differential correspondence with tf_pwa.data / config_loader.data on random trees, real files, LazyCall and SimpleData objects + numpy/path-oracle search on the implementation",
+    "text": "Lean theorems over ALL nested dict/list/tuple data trees (structural induction, arbitrary depth and row type), all batch sizes b>0 and all event counts: the batches of data_split are exactly the row windows [j*b,(j+1)*b) of every leaf and their number is the minimum over the tree of ceil(n/b) (leaf), MAX_ITER (empty dict/list), 0 (empty tuple) (split_eq, split_count, split_sizes); data_merge of the batches is the data cut after (number of batches)*b rows (merge_split_general), hence equals the data when no empty container limits the iteration or ceil(n/b) <= MAX_ITER (merge_split) and provably loses rows otherwise (merge_split_truncated, split_empty_tuple); batch_call f = f(whole sample) for every f commuting with row windows, and the scalar broadcast rule (batch_call_eq, batch_call_scalar); data_mask keeps exactly the selected rows of every leaf in order (mask_leaf); load_dat_file(savetxt(p)) = p for every particle count / event count / number of files holding disjoint particle groups (load_multi_file, load_save_roundtrip); merged LazyCall batches = eval() (lazy_eq_eager); data_index hit/fallback/path rules. For the code after the fix (15c726c, now in /repo) every statement is proved with NO guard on empty containers, empty extra or the number of batches: splitF_batches, splitF_get, merge_splitF, batch_call_eqF, batch_call_scalarF, lazyIterF_batches, lazy_eq_eagerF (plain LazyCall, _split_extra) and lazy_nested_eq_eagerF (LazyCall of a LazyCall). Round 2 (Props/C18b over the model Model/DataX, same quantifiers): a mask and its complement partition the events of every array -- re-interleaving gives the array back, sizes add up (mask_partition), data_merge(data_mask(d,sel), data_mask(d,~sel)) is d with the same row permutation in every array (cut_then_merge), data_cut keeps exactly the events whose addressed entry satisfies the predicate (cut_rows); data_replace sets one key and keeps every other value and the key order (replace_keeps_others, replace_non_dict); data_strip removes the keys at every depth, is idempotent, is the identity on trees without them and keeps the other arrays in order (strip_idempotent, strip_unchanged); data_map functor laws, hence data_to_numpy / data_to_tensor keep structure and values (data_map_id, data_map_comp, data_map_leaves); data_shape = leading size of the first array, all_list in data_map order (data_shape_first, data_shape_uniform); flatten_dict_data holds every array exactly once in order when no joined key collides (flatten_lossless) and provably loses one otherwise (flatten_collision_loses); batch_sum(f) = f(whole sample) for every f additive over row prefixes, no algebraic law on + needed (batch_sum_eq_sum, batch_sum_no_batch); data_index(d, p+q) = data_index(data_index(d,p), q) (index_append); check_nan keeps the structure and flags exactly the arrays with a NaN (check_nan_shape); LazyCall object: L[k]=v; L[k'] (lazy_getitem_set), copy / as_dataset keep x and items (lazy_copy_getitem), L[k] is the value found under k in L.eval() and overrides a same-named output (lazy_getitem_eq), data_replace(L,k,v).eval() differs from L.eval() exactly at k (lazy_replace_eval), data_merge of LazyCalls holding pieces of one sample concatenates x and every attached item in the same piece order (lazy_merge_pieces), LazyCall(g, LazyFile(x)): merged batches = eval() (lazy_file_eq_eager), EvalLazy (eval_lazy_eq); file conventions: SimpleData.savetxt + load_p4 under the same dat_order return every particle its own momenta for EVERY duplicate-free order list, i.e. every permutation and sub-list of the final particles (dat_order_roundtrip, dat_order_independent), particle-major files with order=(0,1,2), split=[N] (load_order012); side files: entry i of the concatenated weight/charge files belongs to event i and masks, batches and merges act on (event, weight) pairs (weights_follow_rows, weights_default). Round 4 (Props/C18c over the model Model/DataY, same kind of quantifiers): the file column -> particle assignment of load_p4 is determined by the card alone, is the identity without dat_order and a permutation of the final particles for every dat_order listing them (dat_order_is_permutation); for ANY files, under a duplicate-free dat_order the array stored under order[idx] is column idx of what load_dat_file cut out, and cal_angle(list) makes the same assignment (load_column_to_particle); get_dat_order(standard=True) (first match) and the re_map of __init__ (last assignment) agree for consistent chain maps, so get_data_index('p', name) addresses the standard name (standard_eq_remap, with the inconsistent case exhibited), and standard names translate back to the order list for injective maps (standard_order_roundtrip); MultiData.get_data returns one data set per sample and sample i is load_data(files[i], **kwargs_i) with kwargs_i[name] = entry i of a per-sample list / the single card value / None (multi_sample_plumbing, multi_flat_files); data_cut with a compound expression (& | ~, < <= > >=, + - *, literals, names) as an AST: the mask computed by whole-array operations, one per node, is the event-wise value of the expression and data_cut keeps exactly the events where it is true (cut_mask_eq_eval), data_cut(e) and data_cut(~e) partition the events and merge back to a row permutation of the data (cut_complement_merge); LazyCall objects with identities: in every heap reachable by any history of LazyCall(...) / L[k]=v / copy() / data_replace two objects never share an extra dict, a copy has the same x and items, and an assignment through one object is invisible through every other (copy_independent). Both models are tied to tf_pwa.data / config_loader.data by exact comparison on random trees, real files, LazyCall objects and SimpleData objects on every run; numpy / path oracles test the statements directly on the implementation, incl. the real ConfigLoader with weight and charge side files in eager and lazy_call mode.",
+    "note": "Models = TfPwaV.Data, TfPwaV.DataX and TfPwaV.DataY (hand-written; generators = lists of yielded values with the MAX_ITER branch and zip truncation mirrored; fixed variant 'finite list | repeat' selected by observing the tree). Validated, not proved: numpy/tf slicing, concat and boolean_mask act row-wise and keep inner shape/dtype; np.savetxt/loadtxt/save/load exactness; save_data/load_data/save_dataz pickling incl. key order; tf.data (HeavyCall) batching; LazyFile's from_generator pipeline; LazyCall.merge of ARBITRARY operands: eval of the merged object and data_merge of the eager values are both modelled (TfPwaV.DataY.eagerMerge, op lmerge) and compared exactly, but their equality lazy_merge_eq_eager_merge (hypothesis: an attached key that is also an output key of f is attached to all operands or to none; key intersection of the other extras) is only tested by the search, not proved, nor is iteration after merge for non-piece operands; sympy.sympify / lambdify of data_cut expressions (every generated expression is run through the real data_cut and compared with the AST model; expressions that sympy simplifies to fewer variables are skipped -- data_cut raises NameError on them); load_extra_var / load_data / get_n_data / get_weight_sign are modelled and compared (ops extravar, multi) without theorems of their own beyond multi_sample_plumbing; the full ConfigLoader path with the real preprocessor (cal_angle, lazy_call mode: search on a 3-body decay, every dat_order in the thorough tier), DecayGroup.get_chains_map behind get_dat_order(standard=True), get_data_index('angle'/'aligned_angle'), weight_smear, process_scale; text/npy/npz round trips (save_data / save_dataz / load_data pickling incl. key order: search only; no flatten/unflatten inverse is proved -- tf_pwa has no unflatten); data_root_lhcb formats are not covered. Observed, not a C18 violation: flatten_dict_data silently overwrites on colliding joined keys and drops empty containers; load_extra_var does not check that a side file has at least n_data entries. Finding of this check, repaired in /repo (15c726c, kind 'fixed' in known_findings.jsonl; the unrepaired variant stays in the model as refutation theorems and is reported under its own key if the fix is reverted): an empty dict/list stopped the iteration after 1000 batches, an empty tuple made data_split yield nothing, LazyCall with empty extra stopped after 1000 batches.",
+    "technique": "Lean 4 proof by structural induction over nested data trees (unbounded sizes) + exact differential correspondence with tf_pwa.data / config_loader.data on random trees, real files, random data_cut expressions, histories of LazyCall object operations, SimpleData / MultiData objects + numpy/path-oracle search on the implementation",
 }
